@@ -224,8 +224,8 @@ CLAIMED = {
         "error; once the writer is closed (finish, or a failed compressor switch) write/start/end-extra/finish all return "
         "the closed error with the state unchanged; an unsupported method or a level outside a compressing method's range "
         "is an error that closes the writer; accepted extra data fits 16 bits incl. the local ZIP64 reservation and its "
-        "first record is complete, not ZIP64, not reserved.  Correspondence: ALL call sequences to depth 3 (4 thorough) over "
-        "the full alphabet with small parameter domains plus random sequences up to depth 200: every call's "
+        "first record is complete, not ZIP64, not reserved.  Correspondence: ALL call sequences to depth 2 plus 9000 sampled of depth 3 (thorough: ALL to depth 4) over "
+        "a 33-letter alphabet (every call, small parameter domains, ZipCrypto option on every entry kind) plus random sequences up to depth 200: every call's "
         "Ok/Err(kind)/Panic and the final sink bytes equal the model's; oracle: no panic, misuse is an error, and when "
         "finish succeeds an independent strict validator accepts the archive and finds exactly the entries whose creation "
         "succeeded with the bytes successfully written.",
